@@ -60,8 +60,8 @@ def gen_cases(tier, seed):
         cases.append({"type": "storage", "norb": 4, "nocc": 2, "s": int(rng.integers(1 << 30)), "level": "driver",
                       "ad_mode": ["reverse", None, "forward"][rep % 3], "group": "std-%d" % rep, "cost": 60})
     # without reconfiguration inside the sampler the driver's global reconfiguration meets unequal weights and really reshuffles walkers
-    for rep in range(1 if q else 4):
-        cases.append({"type": "storage", "norb": 4, "nocc": 2, "s": int(rng.integers(1 << 30)), "level": "driver", "do_sr": False, "rot": bool(rep % 2),
+    for rep in range(2 if q else 6):
+        cases.append({"type": "storage", "norb": 4, "nocc": 2, "s": int(rng.integers(1 << 30)), "level": "driver", "do_sr": False, "rot": bool(rep % 3 == 2),
                       "ad_mode": ["forward", "reverse"][rep % 2], "group": "stdn-%d" % rep, "cost": 60})
     return cases
 
@@ -326,14 +326,15 @@ def run_storage(case):
         events.append(judge("storage/sampler-walkers", max(float(np.max(np.abs(up - res["rhf"][2]))), float(np.max(np.abs(dn - res["rhf"][2])))), 1e-8, key + "/walkers"))
         sample = {"level": "sampler", "energies_restricted": er, "energies_unrestricted": eu}
     else:
-        nw, dt = (6, 0.01) if case.get("do_sr", True) else (8, 0.05)
+        nw, dt = (6, 0.01) if case.get("do_sr", True) else (12, 0.03)
         nsteps = 3 if case.get("do_sr", True) else 10
+        nblk = 3 if case.get("do_sr", True) else 8   # many global reconfigurations of unequal weights when the sampler itself does none
         pair, mo = _closed_shell_pair(case, rng, dt, nw)
         rows, rdm = {}, {}
         for wt in ("rhf", "uhf"):
             P = pair[wt]
-            smp = sampling.sampler(n_prop_steps=nsteps, n_ene_blocks=1, n_sr_blocks=2, n_blocks=3)
-            options = {"dt": dt, "n_walkers": nw, "n_prop_steps": nsteps, "n_ene_blocks": 1, "n_sr_blocks": 2, "n_blocks": 3,
+            smp = sampling.sampler(n_prop_steps=nsteps, n_ene_blocks=1, n_sr_blocks=2, n_blocks=nblk)
+            options = {"dt": dt, "n_walkers": nw, "n_prop_steps": nsteps, "n_ene_blocks": 1, "n_sr_blocks": 2, "n_blocks": nblk,
                        "n_ene_blocks_eql": 1, "n_sr_blocks_eql": 1, "n_eql": 1, "seed": case["s"] % 7919, "ad_mode": case.get("ad_mode"),
                        "orbital_rotation": case.get("rot", True), "do_sr": case.get("do_sr", True), "walker_type": wt, "symmetry": False, "save_walkers": False,
                        "trial": wt, "ene0": 0.0, "free_projection": False, "n_batch": 1}
